@@ -8,8 +8,9 @@ An op is a JSON-able list: ["NewSession", root] | ["OpenSp", s, typed_sp] | ["Op
 ["Ids", s] | ["Len", s] | ["Contains", s, h] | ["Copy", h] | ["DeepCopy", h] | ["Pickle", h] |
 ["Edit", h, [steps...], act] | ["Assign", h, typed_sp] | ["UpdateSp", h, typed_u, overwrite] |
 ["Move", h, s] | ["Clone", s, h] | ["Tree"] | ["Quiet"] | ["MutateArg", h, key, typed_value, nested]
-(MutateArg is harness-only: it mutates the mapping that was passed to open_job; the model has no
-counterpart because Gallina values cannot alias).
+(MutateArg / ["MutateAssigned", h, key, typed_value, nested] are harness-only: they mutate the mapping that was
+passed to open_job / to the state point setter or update_statepoint; the model has no counterpart because
+Gallina values cannot alias).
 steps: ["k", key] | ["i", index];  act: ["set", key, typed_v] | ["del", key] | ["seti", idx, typed_v] | ["append", typed_v]
 """
 import copy
@@ -239,6 +240,7 @@ class World:
         self.sessions = []
         self.handles = []
         self.args = {}
+        self.assigned = {}     # handle -> the mapping the caller last passed to the setter / update_statepoint
         self.inited = set()
         self.prev_tree = None
         self.prev_snap = None
@@ -445,11 +447,27 @@ class World:
                     obj.append(untyped(a[1]))
                 return ["unit"]
             if k == "Assign":
-                H[op[1]].statepoint = untyped(op[2])
+                self.assigned[op[1]] = untyped(op[2])
+                H[op[1]].statepoint = self.assigned[op[1]]
                 return ["unit"]
             if k == "UpdateSp":
-                H[op[1]].update_statepoint(untyped(op[2]), overwrite=op[3])
+                self.assigned[op[1]] = untyped(op[2])
+                H[op[1]].update_statepoint(self.assigned[op[1]], overwrite=op[3])
                 return ["unit"]
+            if k == "MutateAssigned":
+                # harness-only: the caller keeps using (mutating in place) the mapping it assigned
+                arg = self.assigned.get(op[1])
+                if arg is not None:
+                    done = False
+                    if op[4]:
+                        for key, val in arg.items():
+                            if isinstance(val, dict):
+                                val[op[2]] = untyped(op[3]); done = True; break
+                            if isinstance(val, list):
+                                val.append(untyped(op[3])); done = True; break
+                    if not done:
+                        arg[op[2]] = untyped(op[3])
+                return None
             if k == "Move":
                 H[op[1]].move(self.sessions[op[2]])
                 return ["unit"]
